@@ -158,10 +158,10 @@ def _random_sentences(rng, count):
 
 
 def run(report, findings):
-    from ..contracts import parser_c
+    from ..contracts import parser_c, scanner_c
     tier = report.tier
-    # ---- proof tier: every parser function against the grammar contract
-    checklib.run_proofs(report, "C01", [("vf.contracts.parser_c", parser_c.FUNCTIONS)])
+    # ---- proof tier: every scanner and parser function against the grammar contract
+    checklib.run_proofs(report, "C01", [("vf.contracts.scanner_c", scanner_c.FUNCTIONS), ("vf.contracts.parser_c", parser_c.FUNCTIONS)])
     # ---- bounded tier: exhaustive strings over the token alphabet
     n_max = 4 if tier == "quick" else 5
     tasks = []
@@ -201,7 +201,9 @@ def run(report, findings):
             "spec-level lemma (not mechanised): a tree that is stratified and covers a token sequence is the unique "
             "fully parenthesised reading of that sequence; corroborated by re-parsing the fully parenthesised unparse "
             "of every accepted enumerated string",
-            "scanner.py is not under proof: its tokenisation is exercised by the bounded tier only",
+            "scanner: the claim 'every non-blank character lies in exactly one token' is the composition of the proved contracts of "
+            "scan (calls scan_token with start == current while current < len) and scan_token (consumes >= 1 character; one token "
+            "spelling exactly the consumed span, or one blank and no token) - the composition itself is an argument, not an obligation",
             "Parser.check/match/consume and utils.listify are inlined into each caller rather than given contracts",
             "termination of the mutually recursive nonterminals is not proved (loop variants only)"],
         "bounded": {"enumerator": f"all strings over {len(ALPHABET)} lexemes up to length {n_max}, single-blank, dense "
